@@ -754,6 +754,15 @@ def stop_loop_selection(chk, rule, which, why):
     ok = src(lp.iter) == coll and not any(isinstance(y, (ast.Break, ast.Return)) for y in ast.walk(lp))
     chk.ob(rule, "%s looks at all of %s and never leaves the loop early" % (qual, coll), ok, f.where(lp), detail=src(lp.iter), construct=f.ident,
            text="stop loop range")
+    # the bookkeeping (list of modes waited for / counter) is updated before stop() is called: a mode that is not running any more
+    # calls the completion callback from inside stop(), and the callback takes the mode off the books
+    books = [n for n in cfg.nodes if n.kind == "stmt" and any(y is n.ast for y in ast.walk(lp)) and (
+        (isinstance(n.ast, ast.AugAssign) and isinstance(n.ast.op, ast.Add)) or
+        any(call_attr(c) == "append" and src(c.func.value).startswith("self.") for c in n.calls()))]
+    sel = inloop_guards(cfg, st[0][0].id, lh[-1].id)
+    books = [b for b in books if inloop_guards(cfg, b.id, lh[-1].id) == sel]        # the bookkeeping of *this* selection
+    ok = bool(books) and all(cfg.dominates(b.id, st[0][0].id) for b in books)
+    chk.ob(rule, "%s notes the mode as awaited before it asks it to stop" % qual, ok, f.where(st[0][1]), construct=f.ident, text="stop before bookkeeping")
 
 
 def elif_chain_exact(cfg, nodes):
@@ -779,3 +788,37 @@ def elif_chain_exact(cfg, nodes):
             bad.append((n, "selected by %s instead of one test of its own" % sorted(mine)))
         earlier.extend(mine)
     return bad
+
+
+def consume_after_wake(chk, rule, f, event, what):
+    """An asyncio.Event used as a wake-up flag of a loop: the coroutine sleeps on it (directly, or through a future made from its
+    wait()) and then *consumes* it.  The clear must follow the wake-up at once: cleared before the sleep, a request that was set
+    while the previous round was being processed is lost (the loop sleeps although work is pending); with an await between wake-up
+    and clear, a request raised during that await is wiped."""
+    cfg = f.cfg()
+    wake = []
+    futs = {src(a.targets[0]) for a in walk_local(f.node) if isinstance(a, ast.Assign) and ("%s.wait()" % event) in src(a.value) and isinstance(a.targets[0], ast.Name)}
+    for n in cfg.nodes:
+        if n.kind not in ("stmt", "test") or not n.has_await():
+            continue
+        t = src(n.ast)
+        if ("%s.wait()" % event) in t or any(fu in t for fu in futs):
+            wake.append(n)
+    clears = [n for n, c in cfg.calls_named("clear") if src(c.func.value) == event]
+    chk.need(wake and clears, rule, "%s sleeps on %s and consumes it" % (f.qualname, event), f)
+    w = wake[-1]
+    heads = [h.id for h in cfg.nodes if h.kind in ("loop",) or (h.kind == "join" and isinstance(h.ast, ast.While))]
+    ok = True
+    why = ""
+    for c in clears:
+        if not cfg.dominates(w.id, c.id):
+            # a clear that can run before the sleep in the same round
+            ok, why = False, "cleared before the sleep"
+            continue
+        p = cfg.path_avoiding(w.id, [c.id], [], ignore_exc=True)
+        between = [x for x in cfg.reachable([w.id], avoid=[c.id] + heads, include_start=False) if x != c.id and cfg.nodes[x].has_await()
+                   and c.id in cfg.reachable([x], avoid=heads, include_start=False)]
+        if between:
+            ok, why = False, "an await lies between the wake-up and the clear"
+    chk.ob(rule, "%s: %s is consumed right after the wake-up (%s)" % (f.qualname, event, what), ok, f.where(clears[0].ast), detail=why, construct=f.ident,
+           text="wake flag %s %s" % (event, why or "consumed after wake-up"))
